@@ -369,6 +369,15 @@ def race_signature(block):
     return " / ".join(sorted(sides))
 
 
+_print = print
+
+
+def print(*a, **k):  # noqa: A001 - all output lines are made printable (witnesses contain raw bytes)
+    txt = " ".join(str(x) for x in a)
+    txt = "".join(ch if (ch == "\n" or 32 <= ord(ch) < 127 or ord(ch) > 160) else "\\x%02x" % ord(ch) for ch in txt)
+    _print(txt, **k)
+
+
 def main():
     load_propcfg()
     if len(sys.argv) >= 3 and sys.argv[1] == "replay":
